@@ -164,6 +164,10 @@ func rulesRangeCode(p *Prog, r *Report) {
 				if _, isRet := matchBlock.Instrs[len(matchBlock.Instrs)-1].(*ssa.Return); !isRet {
 					probs = append(probs, "the search does not return at the first match")
 				}
+				// exhaustive: no conditional inside the nest can skip table entries before they are tested
+				if t := matchBlock.Idom(); t != nil {
+					probs = append(probs, skipsInSearch(p, hdrs, t)...)
+				}
 			}
 		}
 		if len(probs) > 0 {
@@ -406,3 +410,103 @@ func canonAtom(a string) string {
 	return a
 }
 
+
+// naturalLoop: the blocks of the natural loop of header h.
+func naturalLoop(h *ssa.BasicBlock) map[*ssa.BasicBlock]bool {
+	in := map[*ssa.BasicBlock]bool{h: true}
+	var work []*ssa.BasicBlock
+	for _, p := range h.Preds {
+		if h.Dominates(p) && !in[p] {
+			in[p] = true
+			work = append(work, p)
+		}
+	}
+	for len(work) > 0 {
+		b := work[len(work)-1]
+		work = work[:len(work)-1]
+		for _, p := range b.Preds {
+			if !in[p] {
+				in[p] = true
+				work = append(work, p)
+			}
+		}
+	}
+	return in
+}
+
+// skipsInSearch: hdrs are the headers of a loop nest (outer to inner) that searches a table, test is
+// the block whose branch compares the probe with the current entry. Reports every conditional (or
+// return) inside the nest through which an iteration of some level can end — by continue, break or
+// return — without reaching the next inner loop (or, at the innermost level, the test): such a branch
+// lets the search pass over entries it never compares, so "not found" no longer means "not in the table".
+func skipsInSearch(p *Prog, hdrs []*ssa.BasicBlock, test *ssa.BasicBlock) []string {
+	var probs []string
+	if len(hdrs) == 0 {
+		return nil
+	}
+	loops := make([]map[*ssa.BasicBlock]bool, len(hdrs))
+	isHdr := map[*ssa.BasicBlock]bool{}
+	for i, h := range hdrs {
+		loops[i] = naturalLoop(h)
+		isHdr[h] = true
+	}
+	// reach(from, goal, avoid, stop): is there a path from→…→x with goal(x), never entering avoid, not continuing through stop
+	reach := func(from *ssa.BasicBlock, goal func(*ssa.BasicBlock) bool, avoid *ssa.BasicBlock) bool {
+		seen := map[*ssa.BasicBlock]bool{}
+		var dfs func(b *ssa.BasicBlock) bool
+		dfs = func(b *ssa.BasicBlock) bool {
+			if b == avoid || seen[b] {
+				return false
+			}
+			seen[b] = true
+			if goal(b) {
+				return true
+			}
+			for _, s := range b.Succs {
+				if dfs(s) {
+					return true
+				}
+			}
+			return false
+		}
+		return dfs(from)
+	}
+	for _, b := range hdrs[0].Parent().Blocks {
+		if !loops[0][b] || isHdr[b] || b == test {
+			continue
+		}
+		lvl := 0
+		for i := range hdrs {
+			if loops[i][b] {
+				lvl = i
+			}
+		}
+		way := test
+		if lvl+1 < len(hdrs) {
+			way = hdrs[lvl+1]
+		}
+		h := hdrs[lvl]
+		endIter := func(x *ssa.BasicBlock) bool { return x == h || !loops[lvl][x] || len(x.Succs) == 0 }
+		// does b precede the waypoint within one iteration?
+		if !reach(b, func(x *ssa.BasicBlock) bool { return x == way }, h) {
+			continue
+		}
+		if len(b.Succs) == 0 {
+			continue
+		}
+		if len(b.Succs) == 1 {
+			continue // straight-line
+		}
+		for _, s := range b.Succs {
+			if s != way && reach(s, endIter, way) {
+				at := b.Instrs[len(b.Instrs)-1].Pos()
+				if iff, ok := b.Instrs[len(b.Instrs)-1].(*ssa.If); ok && iff.Cond.Pos().IsValid() {
+					at = iff.Cond.Pos()
+				}
+				probs = append(probs, fmt.Sprintf("%s: this branch can end an iteration of the search before the remaining entries are compared (continue, break or return inside the table scan): an id that is in the table can be reported as not found", p.pos(at)))
+				break
+			}
+		}
+	}
+	return probs
+}
